@@ -5,5 +5,5 @@ cd /verif
 git -C /repo status --short | grep -v '^??' && { echo "/repo has uncommitted changes"; exit 2; }
 for p in C01 C02 C03 C04 C05 C06 C07 C08 C09 C10 C11 C12 C13 C14 C15 C16 C17 C18 C19 C20; do
   ./check $p --tier $tier > /dev/shm/runall_$p.txt 2>&1; rc=$?
-  echo "$p exit=$rc viol=$(grep -c '^VIOLATION' /dev/shm/runall_$p.txt) known=$(grep -c '^KNOWN' /dev/shm/runall_$p.txt) $(head -1 /dev/shm/runall_$p.txt | cut -c1-160)"
+  echo "$p exit=$rc viol=$(grep -c '^VIOLATION' /dev/shm/runall_$p.txt) known=$(grep -c '^KNOWN' /dev/shm/runall_$p.txt) checker_errors=$(grep -c '^checker-error' /dev/shm/runall_$p.txt) $(head -1 /dev/shm/runall_$p.txt | cut -c1-160)"
 done
